@@ -58,6 +58,7 @@ struct MSpec {
     for (int i = 0; i < MAXK; ++i) h = vh::hmix(h, (uint64_t)s.v[i]);
     return h;
   }
+  bool equal(const State& a, const State& b) const { return memcmp(a.v, b.v, sizeof a.v) == 0; }
   // erase(iterator) of an element with id 0 (default value inserted by operator[]): ids 0 are not unique, the
   // iterator may refer to an earlier, already removed incarnation -> the operation may also be a no-op
   int alternatives(const Op& o) const { return o.kind == O_ERASE_IT && o.obs == 0 ? 2 : 1; }
